@@ -260,6 +260,23 @@ def corner_programs():
                               [names[1], [["assign", "comb", sg("c0", 2), ["const", 1, None, False]], ["if", [[sg("i0", 1), [["next", "fsm", names[0]]]]], None]]],
                               [names[2], [["assign", "comb", sg("c0", 2), ["const", 2, None, False]], ["next", "fsm", names[1]]]]]],
                             ["if", [[["ongoing", "fsm", names[1]], [["assign", "comb", ["slice", sg("c0", 2), 1, 2], ["const", 1, None, False]]]]], None]]})
+    # 9. an FSM inside a state of another FSM, with equal state names: m.next binds to the innermost FSM
+    fs = {"outer": {"domain": "sync", "states": ["IDLE", "BUSY"], "init": None}, "inner": {"domain": "sync", "states": ["BUSY", "IDLE"], "init": None}}
+    P.append({"signals": {"i0": [1, False, 0, "in"], "c0": [2, False, 0, "comb"], "r0": [3, False, 0, "sync"]},
+              "fsms": fs,
+              "stmts": [["fsm", "sync", "outer", None,
+                         [["IDLE", [["if", [[sg("i0", 1), [["next", "outer", "BUSY"]]]], None]]],
+                          ["BUSY", [["fsm", "sync", "inner", None,
+                                     [["BUSY", [["next", "inner", "IDLE"], ["assign", "sync", sg("r0", 3), ["add", sg("r0", 3), ["const", 1, None, False]]]]],
+                                      ["IDLE", [["next", "inner", "BUSY"], ["assign", "comb", sg("c0", 2), ["const", 1, None, False]]]]]],
+                                    ["if", [[["inv", sg("i0", 1)], [["next", "outer", "IDLE"]]]], None]]]]],
+                        ["if", [[["ongoing", "inner", "IDLE"], [["assign", "comb", ["slice", sg("c0", 2), 1, 2], ["const", 1, None, False]]]]], None]]})
+    # 10. a signed register of which only the upper bits (sign bit included) are driven; a signed comb signal driven in two pieces
+    P.append({"signals": {"i0": [2, False, 0, "in"], "i1": [2, False, 0, "in"], "r0": [4, True, -3, "sync"], "c0": [4, True, 0, "comb"]},
+              "fsms": {},
+              "stmts": [["assign", "sync", ["slice", sg("r0", 4, True), 2, 4], sg("i0", 2)],
+                        ["assign", "comb", ["slice", sg("c0", 4, True), 3, 4], ["index", sg("i1", 2), 1]],
+                        ["if", [[["index", sg("i1", 2), 0], [["assign", "comb", ["slice", sg("c0", 4, True), 0, 2], sg("i0", 2)]]]], None]]})
     return P
 
 
